@@ -15,11 +15,11 @@ PROPERTY = 'C04'
 N = c12.N
 ASSUMPTIONS = [
     'hash160 / sha256 are uninterpreted functional symbols; the text encoders are an inverse-pair stub that records (encoding, prefix, witness version, payload) (C11)',
-    'point multiplication (fastecdsa) and point decompression (modular square root) are not encoded: the public key bytes of a key object are symbols',
+    'point multiplication (fastecdsa) is not encoded: the public key bytes of a private key object are symbols; the modular square root used by decompression returns an arbitrary value in [1, p-1] (its use - root selection by parity, fixed-width formatting - is the real code)',
 ]
-BOUNDS = {'quick': 'every 32-byte private key value (range refusal); every 33/65-byte public key encoding (field extraction); every network of networks.json x {base58 p2pkh, base58 p2sh-p2wpkh, bech32 p2wpkh, bech32 p2wsh, bech32 p2tr} with symbolic public key bytes',
-          'thorough': 'same'}
-OUTSIDE = "that the reported point is the secp256k1 point of the scalar, and the on-curve check of imported public keys (C / big-int code)"
+BOUNDS = {'quick': 'every 32-byte private key value (range refusal); every 33/65-byte public key encoding (field extraction); every network of networks.json x {base58 p2pkh, base58 p2sh-p2wpkh, bech32 p2wpkh, bech32 p2wsh, bech32 p2tr} with symbolic public key bytes, selected through script_type, through witness_type / encoding on Address() and through the HDKey defaults; decompression for every x and every square-root value; two successive address() calls on one key object over 15 x 15 argument combinations (compressed=, script type, explicit prefix) for bitcoin and litecoin',
+          'thorough': 'same, call histories for every network'}
+OUTSIDE = "that the reported point is the secp256k1 point of the scalar, that mod_sqrt returns a square root, and the on-curve check of imported public keys (C / big-int code)"
 
 
 def _mods():
@@ -57,12 +57,34 @@ def setup(ex):
     ex.axiom_sources = ex.axiom_sources + list(_H.values())
     shims.install(K, hash160=_H['h160'], hashlib=_FakeHashlib(),
                   pubkeyhash_to_addr=lambda h, prefix=None, encoding='base58', witver=0: Opaque(encoding, prefix, witver, h))
+    shims.rewrite_function(K.Key, 'public_uncompressed_hex')       # ('%x' % y style formatting stays symbolic)
 
 
 def _eq(a, b):
     if len(a) != len(b):
         return False
     return a == b
+
+
+def _concrete(ex):
+    """replay mode: real hashes; the address text is decoded by the reference decoders into the same record"""
+    import hashlib
+    _H.update(h160=lambda b: hashlib.new('ripemd160', hashlib.sha256(bytes(b)).digest()).digest(),
+              sha=lambda b: hashlib.sha256(bytes(b)).digest())
+
+
+def _opaque(a):
+    if isinstance(a, Opaque) or not isinstance(a, str):
+        return a
+    from ref import bech32 as RB
+    d = RB.decode_segwit(a)
+    if d is not None:
+        return Opaque('bech32', ''.join(chr(c) for c in d[0]), d[1], bytes(d[2]))
+    raw = c12._b58dec(a)
+    import hashlib
+    if len(raw) < 25 or hashlib.sha256(hashlib.sha256(raw[:-4]).digest()).digest()[:4] != raw[-4:]:
+        return None
+    return Opaque('base58', raw[:-24], 0, raw[-24:-4])
 
 
 def h_private_range(ex, fmt):
@@ -126,6 +148,8 @@ def h_address(ex, net):
     """Key.address(): the payload handed to the text encoder is exactly the standard hash of the public key for the
     script type, with the version byte / hrp documented for the network"""
     K, E = _mods()
+    if ex.concrete:
+        _concrete(ex)
     nets = c12.networks()
     d = nets[net]
     cfg = ex.choose('type', list(CONFIGS))
@@ -140,22 +164,146 @@ def h_address(ex, net):
     k._public_uncompressed_hex = 'set'
     k.compressed, k._address_obj, k._hash160, k.is_private = comp, None, None, False
     a = k.address(encoding=CONFIGS[cfg]['encoding'], script_type=CONFIGS[cfg]['script_type'])
-    if not isinstance(a, Opaque):
-        ex.check(False, 'address-built')
-        return
-    data = pub if comp else pubu
+    _check_addr(ex, a, _want(d, cfg, pub if comp else pubu))
+
+
+P = 0xFFFFFFFFFFFFFFFFFFFFFFFFFFFFFFFFFFFFFFFFFFFFFFFFFFFFFFFEFFFFFC2F
+
+
+def h_decompress(ex):
+    """Key.public_uncompressed_hex / _byte of a key imported in compressed form: 04 | x | y with y the square root whose
+    parity matches the 02/03 prefix, both coordinates at their fixed width of 32 bytes (for every value the modular
+    square root may return)"""
+    K, E = _mods()
+    x = ex.bytes('x', 32)
+    par = ex.choose('prefix', [2, 3])
+    root = ex.int('mod_sqrt_result', 1, P - 1)
+    k = K.Key.__new__(K.Key)
+    k._public_uncompressed_hex = k._public_uncompressed_byte = None
+    xh = x.hex() if not ex.concrete else bytes(x).hex()
+    k.public_hex = ('02' if par == 2 else '03') + xh
+    k._x, k.x_hex = shims.IntShim.from_bytes(x, 'big'), xh
+    if ex.concrete:
+        # replay: the real mod_sqrt is replaced by the recorded result (the obligation is universal over results)
+        import bitcoinlib.keys as KK
+        orig = KK.mod_sqrt
+        KK.mod_sqrt = lambda a: int(root)
+        try:
+            h, b = k.public_uncompressed_hex, k.public_uncompressed_byte
+        finally:
+            KK.mod_sqrt = orig
+    else:
+        shims.install(K, mod_sqrt=lambda a: root, pow=lambda a, b, c=None: 0, hex=shims.hex_shim)
+        shims.install(E, hex=shims.hex_shim)
+        h, b = k.public_uncompressed_hex, k.public_uncompressed_byte
+    odd = (root & 1) == 1
+    y = root if bool(odd == (par == 3)) else P - root
+    want = b'\x04' + x + y.to_bytes(32, 'big')
+    ex.check(_eq(b, want), 'uncompressed-bytes-are-04-x-y-fixed-width')
+    wh = want.hex() if not ex.concrete else bytes(want).hex()
+    ex.check((core.SStr.lift(h) == wh) if not ex.concrete else h == wh, 'uncompressed-hex-is-04-x-y-fixed-width')
+
+
+ROUTES = {
+    # constructor arguments -> (encoding, prefix field, payload rule, witness version)
+    'Address(witness_type=p2sh-segwit)': (dict(witness_type='p2sh-segwit'), 'p2sh_p2wpkh'),
+    'Address(witness_type=p2sh-segwit, encoding=base58)': (dict(witness_type='p2sh-segwit', encoding='base58'), 'p2sh_p2wpkh'),
+    'Address(script_type=p2sh_p2wpkh)': (dict(script_type='p2sh_p2wpkh'), 'p2sh_p2wpkh'),
+    'Address(witness_type=legacy)': (dict(witness_type='legacy'), 'p2pkh'),
+    'Address(encoding=base58)': (dict(encoding='base58'), 'p2pkh'),
+    'Address(witness_type=segwit)': (dict(witness_type='segwit'), 'p2wpkh'),
+    'Address(encoding=bech32)': (dict(encoding='bech32'), 'p2wpkh'),
+    'Address(script_type=p2wsh)': (dict(script_type='p2wsh'), 'p2wsh'),
+    'Address(script_type=p2tr)': (dict(script_type='p2tr'), 'p2tr'),
+    'HDKey(witness_type=legacy).address()': ('hd', 'legacy', 'p2pkh'),
+    'HDKey(witness_type=p2sh-segwit).address()': ('hd', 'p2sh-segwit', 'p2sh_p2wpkh'),
+    'HDKey(witness_type=segwit).address()': ('hd', 'segwit', 'p2wpkh'),
+}
+
+
+def _want(d, cfg, data):
     h160 = _H['h160']
     if cfg == 'p2pkh':
-        want = ('base58', bytes.fromhex(d['prefix_address']), h160(data))
-    elif cfg == 'p2sh_p2wpkh':
-        want = ('base58', bytes.fromhex(d['prefix_address_p2sh']), h160(b'\x00\x14' + h160(data)))
-    elif cfg == 'p2wpkh':
-        want = ('bech32', d['prefix_bech32'], h160(data))
+        return ('base58', bytes.fromhex(d['prefix_address']), h160(data), 0)
+    if cfg == 'p2sh_p2wpkh':
+        return ('base58', bytes.fromhex(d['prefix_address_p2sh']), h160(b'\x00\x14' + h160(data)), 0)
+    if cfg == 'p2wpkh':
+        return ('bech32', d['prefix_bech32'], h160(data), 0)
+    return ('bech32', d['prefix_bech32'], _H['sha'](data), 1 if cfg == 'p2tr' else 0)
+
+
+def _check_addr(ex, a, want, tag=''):
+    a = _opaque(a)
+    if not isinstance(a, Opaque):
+        ex.check(False, 'address-built' + tag)
+        return
+    ex.check(a.encoding == want[0] and a.prefix == want[1], 'address-encoding-and-network-prefix' + tag)
+    ex.check(_eq(a.payload, want[2]), 'address-payload-is-standard-hash-of-key' + tag)
+    ex.check(a.witver == want[3], 'address-witness-version' + tag)
+
+
+def h_address_routes(ex, net):
+    """the other documented ways to select the address type - Address(witness_type= / script_type= / encoding=) and the
+    defaults an HDKey derives from its witness type - give the same standard encodings"""
+    K, E = _mods()
+    if ex.concrete:
+        _concrete(ex)
+    d = c12.networks()[net]
+    route = ex.choose('route', list(ROUTES))
+    pub = b'\x02' + ex.bytes('pub_x', 32)
+    spec = ROUTES[route]
+    if spec[0] == 'hd':
+        k = K.HDKey.__new__(K.HDKey)
+        k.network = K.Network(net)
+        k.public_byte = k.public_compressed_byte = pub
+        k.compressed, k._address_obj, k._hash160, k.is_private = True, None, None, False
+        k.witness_type, k.multisig = spec[1], False
+        k.script_type = K.script_type_default(spec[1], False)
+        k.encoding = K.get_encoding_from_witness(spec[1])
+        a = k.address()
+        cfg = spec[2]
     else:
-        want = ('bech32', d['prefix_bech32'], _H['sha'](data))
-    ex.check(a.encoding == want[0] and a.prefix == want[1], 'address-encoding-and-network-prefix')
-    ex.check(_eq(a.payload, want[2]), 'address-payload-is-standard-hash-of-key')
-    ex.check(a.witver == (1 if cfg == 'p2tr' else 0), 'address-witness-version')
+        a = K.Address(pub, network=net, **spec[0]).address
+        cfg = spec[1]
+    _check_addr(ex, a, _want(d, cfg, pub))
+
+
+OPS = [(c, cfg, pf) for c in (None, True, False) for cfg in ('p2pkh', 'p2sh_p2wpkh', 'p2wpkh') for pf in (False, True)
+       if not (c is False and cfg != 'p2pkh')]
+
+
+def h_address_history(ex, net):
+    """two successive address requests on ONE key object (any compressed= argument, script type, with or without an
+    explicit version prefix): the second answer is the standard address for ITS arguments, not a remembered one"""
+    K, E = _mods()
+    if ex.concrete:
+        _concrete(ex)
+    d = c12.networks()[net]
+    comp0 = ex.choose('key_compressed', [True, False])
+    # the key object is built by the real constructor from a public key in compressed / uncompressed form; its two
+    # serializations (obligations of the public_fields / decompress jobs) are read back from it
+    if comp0:
+        root = ex.int('mod_sqrt_result', 1, P - 1)
+        if not ex.concrete:
+            shims.install(K, mod_sqrt=lambda a: root, pow=lambda a, b, c=None: 0, hex=shims.hex_shim)
+            shims.install(E, hex=shims.hex_shim)
+        data = b'\x02' + ex.bytes('pub_x', 32)
+    else:
+        data = b'\x04' + ex.bytes('pub_x2', 32) + ex.bytes('pub_y', 32)
+    k = K.Key(data if not ex.concrete else bytes(data), network=net)
+    pub, pubu = k.public_compressed_byte, k.public_uncompressed_byte
+    flag = comp0
+    for n in (1, 2):
+        c, cfg, pf = ex.choose('call%d' % n, OPS)
+        if cfg != 'p2pkh' and not (c or (c is None and flag)):
+            ex.cut('segwit address of an uncompressed key is refused')
+        want = list(_want(d, cfg, pub if (c or (c is None and flag)) else pubu))
+        kw = dict(script_type=cfg, encoding=want[0])
+        if pf:
+            kw['prefix'] = want[1] = (b'\x6f' if want[0] == 'base58' else 'tb')
+        a = k.address(compressed=c, **kw)
+        flag = bool(c or (c is None and flag))       # the library remembers the last requested form in key.compressed
+        _check_addr(ex, a, want, '-call%d' % n)
 
 
 def jobs(tier):
@@ -163,6 +311,10 @@ def jobs(tier):
          Job('private_range_hex', h_private_range, W=272, setup=setup, params=dict(fmt='hex'), budget_s=1500),
          Job('public_fields_compressed', h_public_fields, W=272, setup=setup, params=dict(form='compressed')),
          Job('public_fields_uncompressed', h_public_fields, W=272, setup=setup, params=dict(form='uncompressed'))]
+    J.append(Job('decompress', h_decompress, W=272, setup=setup, budget_s=300))
     for net in c12.networks():
         J.append(Job('address_%s' % net, h_address, W=72, setup=setup, params=dict(net=net), budget_s=1500))
+        J.append(Job('address_routes_%s' % net, h_address_routes, W=72, setup=setup, params=dict(net=net), budget_s=1500))
+    for net in ('bitcoin', 'litecoin') if tier == 'quick' else c12.networks():
+        J.append(Job('address_history_%s' % net, h_address_history, W=272, setup=setup, params=dict(net=net), budget_s=1500))
     return J
